@@ -8,6 +8,7 @@ import (
 	"encoding/hex"
 	"encoding/json"
 	"fmt"
+	"os"
 	"reflect"
 	"runtime"
 	"runtime/debug"
@@ -88,18 +89,40 @@ func decodeOnce(typ reflect.Type, data []byte, service bool) outcome {
 		o.alloc = m1.TotalAlloc - m0.TotalAlloc
 		done <- o
 	}()
-	select {
-	case o := <-done:
-		return o
-	case <-time.After(hangBound):
-		return outcome{hung: true, dur: hangBound}
+	// A decode that does not return is recognised by the CPU time the process
+	// burns while we wait (one case runs at a time per process), not by wall
+	// time: a saturated machine stretches wall time arbitrarily.
+	start := processCPU()
+	wall := time.Now()
+	tick := time.NewTicker(50 * time.Millisecond)
+	defer tick.Stop()
+	for {
+		select {
+		case o := <-done:
+			return o
+		case <-tick.C:
+			if processCPU()-start > hangCPU || time.Since(wall) > hangWall {
+				return outcome{hung: true, dur: processCPU() - start}
+			}
+		}
 	}
 }
 
-// hangBound is a wall-clock bound, so it is generous (the slowest legitimate
-// case, a 100000-level tower on a saturated machine, takes well under a minute)
-// and a hit is confirmed by re-running before it counts.
-const hangBound = 4 * time.Minute
+// hangCPU is far beyond any legitimate decode (the slowest generated input, a
+// 100000-level tower, needs about a second of CPU); hangWall only guards
+// against a decode that blocks without burning CPU.
+const (
+	hangCPU  = 60 * time.Second
+	hangWall = 20 * time.Minute
+)
+
+func processCPU() time.Duration {
+	var ru syscall.Rusage
+	if err := syscall.Getrusage(0 /* RUSAGE_SELF */, &ru); err != nil {
+		return 0
+	}
+	return time.Duration(ru.Utime.Nano() + ru.Stime.Nano())
+}
 
 func threadCPU() time.Duration {
 	var ru syscall.Rusage
@@ -113,11 +136,7 @@ func threadCPU() time.Duration {
 func judge(typ reflect.Type, data []byte, service bool) (string, outcome) {
 	o := decodeOnce(typ, data, service)
 	if o.hung {
-		// confirm: only a decode that exceeds the bound twice counts
-		if o2 := decodeOnce(typ, data, service); !o2.hung {
-			return "", o2
-		}
-		return fmt.Sprintf("decode did not return within %v (twice)", hangBound), o
+		return fmt.Sprintf("decode did not return after %v of CPU time", o.dur), o
 	}
 	if o.pan != nil {
 		return fmt.Sprintf("decode panicked: %v", o.pan), o
@@ -147,15 +166,19 @@ func runCase(t *rapid.T, test string, c hostile.Case, service bool) {
 	if service {
 		cc.Type = "DecodeService"
 	}
-	// only inputs that could take the process down (fatal stack overflow / OOM)
-	// are journalled; everything else is caught by recover
-	risky := len(c.Data) >= 2048 || len(c.Class) >= 5 && c.Class[:5] == "tower"
-	if risky {
-		rec.Journal(test, cc)
-	}
+	// every case is journalled: a fatal stack overflow or an allocation bomb
+	// takes the process down and the driver then names this case
+	rec.Journal(test, cc)
 	msg, o := judge(c.Type.Type, c.Data, service)
-	if risky {
-		rec.JournalDone(test)
+	rec.JournalDone(test)
+	if o.hung {
+		// the runaway decode keeps burning CPU and memory in this process:
+		// report and leave (no shrinking)
+		rec.Case(true, ev.Hash(cc.Type, c.Data), "class:"+classHead(c.Class), "result:hang")
+		path := rec.WriteReplay(test, cc, msg)
+		fmt.Printf("property C02 violated: %s (%s): %s (replay %s)\n", cc.Type, c.Class, msg, path)
+		ev.Flush()
+		os.Exit(1)
 	}
 	nt := o.err == nil || o.n >= 8
 	res := "err"
